@@ -422,6 +422,16 @@ func (c *Ctx) helperValues() {
 			if !ok {
 				run.Violate(report.Finding{Rule: "helper-model/value", Site: fmt.Sprintf("helper.%s/out%d", n, i), Detail: short(sym.CanonString(got), 120), Pos: c.P.Pos(fi.Decl.Pos()),
 					Message: fmt.Sprintf("every element of helper.%s should carry %s, the code computes %s", n, sym.CanonString(want), short(sym.CanonString(got), 200))})
+				continue
+			}
+			// the helpers are generic over helper.Number, which includes the integer types: there
+			// the order of multiplication and division matters (truncation, overflow), so the term
+			// must also agree without moving factors across a division
+			ki, kw := intSafeKey(got), intSafeKey(want)
+			run.Oblige(ki == kw)
+			if ki != kw {
+				run.Violate(report.Finding{Rule: "helper-model/value", Site: fmt.Sprintf("helper.%s/out%d", n, i), Detail: "integer arithmetic: " + short(ki, 100), Pos: c.P.Pos(fi.Decl.Pos()),
+					Message: fmt.Sprintf("helper.%s computes %s; over the rationals that equals the model %s, but the helper is instantiated with integer element types too, where the order of multiplication and division changes the result (truncation, overflow)", n, short(ki, 160), short(kw, 160))})
 			}
 		}
 	}
@@ -540,4 +550,51 @@ func normaliseParams(e sym.Expr) sym.Expr {
 		}
 	}
 	return sym.Subst(e, sub)
+}
+
+// intSafeKey: a canonical text of a term modulo associativity and commutativity of + and * only
+// (nothing is distributed, cancelled or moved across a division or a subtraction).
+func intSafeKey(e sym.Expr) string {
+	var flat func(e sym.Expr, op string, into *[]string)
+	flat = func(e sym.Expr, op string, into *[]string) {
+		if b, ok := e.(sym.Bin); ok && b.Op == op {
+			flat(b.L, op, into)
+			flat(b.R, op, into)
+			return
+		}
+		*into = append(*into, intSafeKey(e))
+	}
+	switch x := e.(type) {
+	case sym.Num:
+		return x.V.RatString()
+	case sym.Var:
+		return x.Name
+	case sym.Neg:
+		return "neg(" + intSafeKey(x.X) + ")"
+	case sym.Bin:
+		if x.Op == "+" || x.Op == "*" {
+			var parts []string
+			flat(x, x.Op, &parts)
+			sort.Strings(parts)
+			return "(" + strings.Join(parts, " "+x.Op+" ") + ")"
+		}
+		return "(" + intSafeKey(x.L) + " " + x.Op + " " + intSafeKey(x.R) + ")"
+	case sym.Call:
+		var as []string
+		for _, a := range x.Args {
+			as = append(as, intSafeKey(a))
+		}
+		return x.Fn + "(" + strings.Join(as, ", ") + ")"
+	case sym.Cmp:
+		return "(" + intSafeKey(x.L) + " " + x.Op + " " + intSafeKey(x.R) + ")"
+	case sym.Logic:
+		var as []string
+		for _, a := range x.Args {
+			as = append(as, intSafeKey(a))
+		}
+		return x.Op + "(" + strings.Join(as, ", ") + ")"
+	case sym.Ite:
+		return "ite(" + intSafeKey(x.Cond) + ", " + intSafeKey(x.A) + ", " + intSafeKey(x.B) + ")"
+	}
+	return sym.String(e)
 }
